@@ -39,6 +39,7 @@ func init() {
 		Rule: "seeded models from internal/gen in which default-able attributes are mostly left implicit; per model the implicit-default sites are enumerated for 17 rules " +
 			"(default network membership and declaration, <project>_<key> resource names incl. external resources, depends_on implied by links / service: namespaces / volumes_from, build context and dockerfile, port protocol and mode, secret target, depends_on and env_file `required`, device count, pull_policy alias); " +
 			"loads: the model as is, the model with every default spelled out, with random subsets spelled out, and with other values at a random subset of sites; the same layout is applied to all variants so that the attribute arrives from the main file, an override file, an extended base (same file / other file) or an included file. " +
+			"Hand-shaped pairs add: resource names under an effective project name that differs from the raw `name:`; empty `networks`; depends_on short lists and ports whose defaults are left implicit by one layer and which a later layer (override file, second document, extending service) refines, followed by a plain load in the same process. " +
 			"Additionally the `default` network must be declared in the loaded project iff some enabled or disabled service uses it or the document declares it. " +
 			"A case is non-trivial when the model loaded, had at least one site, and at least one variant loaded and was compared; distinct = distinct inputs.",
 		Assumptions: []string{
